@@ -16,6 +16,11 @@ Three kinds of cases:
           wired in device.py; the endpoints' outputs are sampled from the real device and fed to the model), see
           harness/props/c20_cyc.py.  The driver also evaluates the assumptions of `tx_never_during_rx` (hostOk,
           envOk) on every sampled cycle; both are expected to hold.
+* "det"   the same real device and host against the CLOSED cycle-level model `DevDet` (sub-model 3 of the driver): packet
+          layer + bulk IN / bulk OUT / status endpoint models + endpoint multiplexer + control endpoint closed loop +
+          setup decoder + handshake detector, i.e. the model of `det_closed_tx_never_during_rx`; nothing the device drives
+          is an input (harness/props/c20_det.py).  The driver also evaluates that theorem's assumptions (hostOk, decOk3) on
+          every cycle; both are expected to hold.
 """
 from harness.common.framework import Case
 from harness.common.rng import Rng
@@ -24,6 +29,7 @@ from harness.common import devharness as DH
 from harness.props import dev_ctl
 from harness.props import devx_util as X
 from harness.props import c20_cyc as CY
+from harness.props import c20_det as DT
 
 PROP = "C20"
 LEAN_MODULES = ["LunaVerif.Props.C20", "LunaVerif.Lemmas.C20CycAbs", "LunaVerif.Lemmas.C20CycInv",
@@ -80,7 +86,12 @@ RULE = ("cases = 'mux' (number of inputs x random valid/data patterns, one-hot a
         "CLEAR_FEATURE(ENDPOINT_HALT), other devices' transactions, SOF, malformed packets, bus resets) x PHY timing "
         "(byte gaps, tx_ready about 3 of 4 cycles); every generated event is checked against Full.legalEvent; 'cyc' cases run the "
         "same kind of script and compare the packet layer of the real device cycle by cycle with the composed model DevCyc "
-        "(inputs = UTMI receive side, tx_ready and everything the endpoints drive, sampled from the real device)")
+        "(inputs = UTMI receive side, tx_ready and everything the endpoints drive, sampled from the real device); 'det' cases "
+        "(standard handlers, one bulk IN / bulk OUT / status endpoint, three endpoint layouts) run the same kind of script and "
+        "compare the real device cycle by cycle with the CLOSED model DevDet (inputs = UTMI receive side, tx_ready, user side "
+        "of the endpoint streams, reset sequencer's transmitter, address and configuration registers; 34 compared columns: "
+        "UTMI transmit side, both transmitters, the post-multiplexer interface, every endpoint's EndpointInterface outputs, "
+        "setup decoder received / ack / new_packet, handshake detector ack) and evaluate hostOk and decOk3 on every cycle")
 ASSUMPTIONS = dev_ctl.ASSUMPTIONS + [
     "bulk OUT data packets are at most max_packet_size long; stream events (produce / consume / signal change) happen "
     "between transactions",
@@ -185,13 +196,14 @@ PARTIAL = ("Proved: the transaction-level theorems for every state and event of 
            "clause on start_position, (f) reset sequencer silent, rx_data < 256. STILL ASSUMED / NOT proved: (e) and (f) "
            "are environment assumptions (see ASSUMPTIONS); kernel-evaluated necessity examples: hs = true makes the decoder "
            "ACK three cycles before the receiver's pulse. The slot-contract columns of the 'cyc' cases keep checking the "
-           "control endpoint's contract on the real gateware in every co-simulated cycle; the wiring of DevCtl / DevDec / "
-           "DevDet (ctlIn, drvOf, decCycle, xOf, xIn) is read off device.py / control.py / request.py, not co-simulated as a "
-           "whole (the parts are); "
-           "the closed-loop "
-           "WIRING of the endpoint models (Lemmas/C20Device.lean, read off stream.py/status.py/endpoint.py) is not itself "
-           "co-simulated as a whole - each "
-           "endpoint model and the packet layer are, separately; (b) the refinement from cycles to events beyond the "
+           "control endpoint's contract on the real gateware in every co-simulated cycle; the WIRING of the closed "
+           "model (DevEp / DevCtl / DevDec / DevDet: inIn, outIn, sigIn, fullIn, ctlIn, drvOf, decCycle, xOf, xIn) IS now "
+           "co-simulated as a whole: the 'det' cases run the closed model DevDet (sub-model 3 of the driver) against the "
+           "real USBDevice with nothing the device drives fed to the model, 34 columns compared in every cycle, and the "
+           "theorem's assumptions hostOk / decOk3 evaluated on every cycle (expected 1), for devices with the standard "
+           "request handlers and one bulk IN / bulk OUT / status endpoint; the address and configuration registers of "
+           "USBDevice are inputs of the model (sampled); "
+           "(b) the refinement from cycles to events beyond the "
            "handshake-response case (handshake_response_wire: a handshake request yields exactly the wire image of the "
            "event-level Resp.hs); data responses and the endpoints' choice of the handshake are tied by the event-level "
            "co-simulation and the cycle monitor only; (c) high speed, where the setup decoder ACKs without waiting for the "
@@ -202,11 +214,11 @@ FULL_EPS = [["in", 1, 64], ["out", 2, 64], ["sig", 3, 16]]
 
 def gen_cases(tier, rng):
     if tier == "quick":
-        n_full, steps, n_mux, n_cyc = 36, 22, 16, 12
+        n_full, steps, n_mux, n_cyc, n_det = 36, 22, 16, 12, 8
     elif tier == "widen":
-        n_full, steps, n_mux, n_cyc = 120, 30, 20, 40
+        n_full, steps, n_mux, n_cyc, n_det = 120, 30, 20, 40, 24
     else:
-        n_full, steps, n_mux, n_cyc = 500, 40, 80, 160
+        n_full, steps, n_mux, n_cyc, n_det = 500, 40, 80, 160, 100
     out = []
     for k in range(n_full):
         out.append({"mode": "full", "seed": rng.u64(), "steps": steps, "k": k})
@@ -214,6 +226,8 @@ def gen_cases(tier, rng):
         out.append({"mode": "mux", "n": 1 + k % 5, "seed": rng.u64(), "k": k})
     for k in range(n_cyc):
         out.append({"mode": "cyc", "seed": rng.u64(), "steps": steps, "k": k})
+    for k in range(n_det):
+        out.append({"mode": "det", "seed": rng.u64(), "steps": steps, "k": k})
     return out
 
 
@@ -347,9 +361,55 @@ def run_cyc(desc):
     return Case(CY.cfg_ints(h), inputs, outputs, fails, sorted(tags), d, ni, no)
 
 
+# ----------------------------------------------------------------------------- the closed cycle-level device
+def make_det_spec(rng):
+    """Device layouts the closed model `DevDet` has: standard handlers only, one bulk IN, one bulk OUT, one status endpoint."""
+    shape = rng.weighted([(4, "std"), (2, "long"), (1, "sparse")])
+    eps = rng.weighted([(6, FULL_EPS), (2, [["in", 1, 32], ["out", 1, 32], ["sig", 4, 8]]),
+                        (1, [["in", 5, 8], ["out", 6, 8, 20], ["sig", 7, 24]])])
+    return {"shape": shape, "desc": DH.descriptor_table(shape, rng), "eps": eps, "handlers": []}
+
+
+def run_det(desc):
+    """The real full device, cycle by cycle, against the CLOSED model `DevDet` (no endpoint output is fed to the model)."""
+    rng = Rng(desc["seed"])
+    tags = set()
+    spec = desc.get("spec") or make_det_spec(rng.fork("spec"))
+    h = DT.DetHarness(spec, rng.fork("timing"))
+    # as in run_cyc a replay re-runs the adaptive host from seed + spec
+    host = X.FullHost(rng.fork("host"), spec, "c07", tags)
+
+    def script(_h):
+        return host.script(desc["steps"])
+    d = dict(desc)
+    d["spec"] = spec
+    log, hung = X.run_guarded(h, script)
+    if hung is not None:
+        return X.hang_case(X.cfg_ints_full(spec), h, hung, d, tags)
+    if h.speeds != {1}:
+        raise RuntimeError("the device's speed signal took the values %r; the composition is configured for FULL (1)" % sorted(h.speeds))
+    inputs, outputs = DT.rows(h, mask_payload=False)
+    fails = []
+    col = {n: k for k, n in enumerate(DT.NAMES_OUT)}
+    for t, (i, o) in enumerate(zip(inputs, outputs)):
+        if o[0] and i[0] and len(fails) < 3:
+            fails.append({"cycle": t, "sig": "c20-tx-during-rx", "what": "tx_valid while rx_active at cycle %d" % t})
+        if o[2] and o[3] and len(fails) < 3:
+            fails.append({"cycle": t, "sig": "c20-mixed-sources", "what": "handshake generator and data generator both valid at cycle %d" % t})
+        for n in ("ctl_ack", "ctl_stall", "ctl_valid", "in_nak", "in_tx_valid", "out_ack", "out_nak", "sig_valid",
+                  "dec_received", "dec_ack", "dec_new_packet", "det_ack"):
+            if o[col[n]]:
+                tags.add("det:" + n)
+    tags.add("mode:det")
+    tags.add("eps:" + "/".join("%s%d" % (e[0], e[1]) for e in spec["eps"]))
+    return Case(DT.cfg_ints(h), inputs, outputs, fails, sorted(tags), d, DT.NAMES_IN, DT.NAMES_OUT)
+
+
 def run_case(desc):
     if desc["mode"] == "mux":
         return run_mux(desc)
+    if desc["mode"] == "det":
+        return run_det(desc)
     if desc["mode"] == "cyc":
         return run_cyc(desc)
     return run_full(desc)
